@@ -64,6 +64,10 @@ class F:
             self.stored = [int(k) for k in r.stored_header_keys]
             self.template_keys = [int(k) for k in r.segy_traceheader_template]
             self.consts = [k for k in self.template_keys if k not in self.stored]
+            # the constant fields with a non-zero value first and last (they are the ones the generators address): on an
+            # irregular file their hole positions are observable
+            nz_ = [k for k in self.consts if int(r.segy_traceheader_template[k]) != 0]
+            self.consts = nz_[:1] + [k for k in self.consts if k not in nz_[:1] + nz_[-1:]] + (nz_[-1:] if len(nz_) > 1 else [])
             self.ilines = None if r.is_2d else [int(x) for x in r.ilines]
             self.xlines = None if r.is_2d else [int(x) for x in r.xlines]
             self.zs = [float(z) for z in r.zslices]
